@@ -87,12 +87,12 @@ def param_writes(rel):
                 bad.append("%s: calls %s.%s()" % (qual, node.func.value.id, node.func.attr))
 
     for node in tree.body:
-        if isinstance(node, ast.FunctionDef) and not node.name.startswith("_") and not node.name.endswith("_"):
-            check(node, "%s::%s" % (rel, node.name), False)
+        if isinstance(node, ast.FunctionDef) and not (node.name.endswith("_") and not node.name.startswith("_")):
+            check(node, "%s::%s" % (rel, node.name), False)      # private helpers too: they are reached from the public functions
         if isinstance(node, ast.ClassDef):
             for fn in node.body:
-                if isinstance(fn, ast.FunctionDef) and not fn.name.startswith("_") and not fn.name.endswith("_"):
-                    check(fn, "%s::%s.%s" % (rel, node.name, fn.name), True)
+                if isinstance(fn, ast.FunctionDef) and not (fn.name.endswith("_") and not fn.name.startswith("_")):
+                    check(fn, "%s::%s.%s" % (rel, node.name, fn.name), True)      # incl. __init__ (constructors take the caller's mesh) and private helpers
     return bad
 
 
